@@ -273,7 +273,7 @@ Classify(r) ==
        \* C14-reuse-lmframe: re-used list-mode objective function whose time frame was changed: the computation is refused
        ELSE IF r.e = "End" /\ r.err /\ m.pc = "g-grad" /\ ~XRefused /\ Has(XCfg, "reuse") /\ XCfg.reuse /\ XCfg.changed = "frame" THEN "C14-reuse-lmframe"
        ELSE IF r.e = "Grad" /\ m.pc = "g-grad" /\ r.plusSens /\ Len(r.lm) = Len(r.pd) /\ r.subset \in 0..(XCfg.numSubsets - 1)
-                 /\ (XCfg.xm => SeqIs(r.pd, XExpected(r), XCfg.nvox)) /\ AllZero(r.lm) /\ ~AllZero(r.pd)
+                 /\ XCfg.xm /\ XCfg.numSubsets = 1 /\ SeqIs(r.pd, XExpected(r), XCfg.nvox) /\ AllZero(r.lm) /\ ~AllZero(r.pd)
             THEN "C14-lmgrad-serial"
             ELSE "new"
 
